@@ -23,8 +23,8 @@ META = {
     "the cooperative scheduler, transitions = one scheduling step of one enabled task; hist: all operation sequences up to the depth; "
     "order: all ordered subsets of the loci; non-trivial = at least two tasks enabled at some point / non-empty history / >= 2 loci",
     "bound": {"quick": "sched: loci 1..4 x cores 2..3 (+5x2, 2x4), no failure and a failure at every position; hist depth 2 (8-op alphabet, seeds {0,7}); "
-                       "order: all 64 ordered subsets of 4 loci x 3 programs x seeds {0,42}; 7 real CLI runs",
-              "thorough": "sched up to 8 loci x 2 cores, 6 x 3, 5 x 4, 3 x 5; hist depth 3; 12 CLI runs incl. call / call-exact"},
+                       "order: all 64 ordered subsets of 4 loci x 3 programs x seeds {0,42}; 15 real CLI runs (assemble x cores {1,2,3,6} and reversed BED, two worker-failure runs, and 8 runs of assemble / call / call-exact / call-pedigree in processes with PYTHONHASHSEED 1..3, the pedigree holding 4 BAM-less members)",
+              "thorough": "sched up to 8 loci x 2 cores, 6 x 3, 5 x 4, 3 x 5; hist depth 3; 20 CLI runs incl. call / call-exact"},
     "assumptions": ["OS scheduling, pickling of the program into workers and pipe-level atomicity of sys.stdout.write are not owned; every interleaving "
                     "of the operations the code performs on shared objects is",
                     "tasks are deterministic given what they read, so equal canonical keys have equal futures"],
@@ -76,7 +76,8 @@ def plan(tier, seed):
     cli = [("assemble", 1, "id"), ("assemble", 2, "id"), ("assemble", 3, "id"), ("assemble", 2, "rev"), ("assemble", 6, "id"),
            ("assemble", 2, "fail"), ("assemble", 1, "fail"),
            # separate processes with different string-hash seeds (set / dict iteration order must not reach the output)
-           ("call-pedigree", 1, "hash1"), ("call-pedigree", 1, "hash2"), ("call-pedigree", 2, "hash3"), ("assemble", 1, "hash2")]
+           ("call-pedigree", 1, "hash1"), ("call-pedigree", 1, "hash2"), ("call-pedigree", 2, "hash3"), ("assemble", 1, "hash2"),
+           ("call", 1, "hash1"), ("call", 2, "hash2"), ("call-exact", 1, "hash1"), ("call-exact", 2, "hash2")]
     if tier == "thorough":
         cli += [("call", 1, "id"), ("call", 3, "id"), ("call-exact", 1, "id"), ("call-exact", 2, "id"), ("assemble", 3, "fail")]
     jobs.append(("cli", tuple(cli), seed, 10 ** 7))
@@ -446,7 +447,7 @@ def job_cli(job):
             return spec, "timeout", out or "", err or ""
         return spec, p.returncode, out, err
 
-    with ThreadPoolExecutor(max_workers=4) as ex:
+    with ThreadPoolExecutor(max_workers=6) as ex:
         results = list(ex.map(launch, runs))
     base = {}
     for (prog, cores, mode), rc, out, err in results:
